@@ -271,7 +271,61 @@ def kernel(task):
 
 
 def run(task):
-    return {"options": options, "kernel": kernel, "exchange": exchange, "fit_trace": fit_trace, "choice": choice}[task["op"]](task)
+    return {"options": options, "kernel": kernel, "exchange": exchange, "fit_trace": fit_trace, "choice": choice, "exchange_step": exchange_step}[task["op"]](task)
+
+
+def exchange_step(task):
+    """chain_swap_step (interpreted) on every pair of bags of a small instance: with np.random.rand forced just below /
+    above the model acceptance min(1, (pi_j/pi_i)^(t_i-t_j)), pi = exp(llk + lprior(F)), the swap must / must not happen,
+    and an accepted swap exchanges the matrices and returns the exchanged likelihoods"""
+    assert PY
+    A = task["A"]
+    P = task["P"]
+    N = len(A)
+    rnd = np.random.RandomState(task["seed"])
+    reads, counts = make_reads(rnd, N, A, 4)
+    F, ti, tj = task["F"], task["ti"], task["tj"]
+    luh = float(np.sum(np.log(A)))
+    cls = [tuple(st["g"]) for st in task["states"]]
+
+    def parts(codes):
+        g = decode(list(codes), A)
+        dosage = np.zeros(P, dtype=np.int8)
+        J.get_haplotype_dosage(dosage, g)
+        return L.log_likelihood(reads, g, read_counts=counts), PR.log_genotype_prior(dosage, luh, F)
+
+    U = {c: parts(c) for c in cls}
+    bad = []
+    n = 0
+    orig = np.random.rand
+    try:
+        for ci in cls:
+            for cj in cls:
+                ui, uj = sum(U[ci]), sum(U[cj])
+                acc = min(1.0, math.exp((uj - ui) * (ti - tj)))
+                for val, want in ((acc * (1 - 1e-7), True), (acc * (1 + 1e-7), False)):
+                    if not want and val >= 1.0:
+                        continue
+                    if acc < 1e-300:
+                        continue
+                    n += 1
+                    gi, gj = decode(list(ci), A), decode(list(cj)[::-1], A)
+                    np.random.rand = lambda _v=val: _v
+                    li, lj = T.chain_swap_step(genotype_i=gi, llk_i=U[ci][0], temp_i=ti, genotype_j=gj, llk_j=U[cj][0], temp_j=tj,
+                                               log_unique_haplotypes=luh, inbreeding=F)
+                    swapped = encode(gi, A) == tuple(sorted(cj)) and encode(gj, A) == tuple(sorted(ci))
+                    stayed = encode(gi, A) == tuple(sorted(ci)) and encode(gj, A) == tuple(sorted(cj))
+                    if ci == cj:
+                        swapped = stayed = True
+                    okl = (li, lj) == ((U[cj][0], U[ci][0]) if want else (U[ci][0], U[cj][0]))
+                    if (want and not swapped) or (not want and not stayed) or not okl:
+                        bad.append({"gi": list(ci), "gj": list(cj), "F": F, "ti": ti, "tj": tj, "model_acceptance": acc, "u_drawn": val,
+                                    "model_swaps": want, "impl_swapped": bool(swapped and not (stayed and ci != cj)), "llks_ok": bool(okl)})
+                        if len(bad) > 5:
+                            return {"n": n, "bad": bad}
+    finally:
+        np.random.rand = orig
+    return {"n": n, "bad": bad}
 
 
 def choice(task):
